@@ -3,5 +3,5 @@
 # quick check (expects VIOLATION) and restores the tree.
 c="$1"; p="$2"
 git -C /repo show "$c" | git -C /repo apply -R || exit 2
-cd /verif && ./check "$p" --tier quick 2>&1 | grep -E "VIOLATION|KNOWN|tier=" | head -5
+cd /verif && VERIF_EVIDENCE_DIR=/verif/.run/scratch-evidence ./check "$p" --tier quick 2>&1 | grep -E "VIOLATION|KNOWN|tier=" | head -5
 git -C /repo checkout -- .
